@@ -603,12 +603,19 @@ func (j *judge) judgeStep(i int, pre, post *Rec, before, after *DiskObs, eff Eff
 		return
 	}
 	if empty && len(B) > 0 {
-		// legitimate only if every trusted key was revoked in this refresh
+		// legitimate only if every trusted key was revoked in this refresh or
+		// may be dropped under S4 (absent from this accepted refresh after
+		// 90 d of being missing) — e.g. one anchor's revocation is accepted in
+		// the very refresh in which the other's remove hold-down runs out
 		all := true
 		for k := range B {
-			if !accRev[k] {
-				all = false
+			if accRev[k] || j.L.k[k].revoked {
+				continue
 			}
+			if lg.accepted && !lg.present[k] && j.L.MayDrop(k, j.now) {
+				continue
+			}
+			all = false
 		}
 		if !all {
 			j.violate("S4/trust-set-emptied", fmt.Sprintf("step %d (%s, auth %s): trust set went from %s to empty", i, st.Fault, auth, names(B.list())), i, nil)
@@ -1007,7 +1014,11 @@ func (rn *runner) execRun(rs *RunSpec) *runResult {
 				}
 				switch {
 				case strings.Contains(line, "openat(") || strings.Contains(line, " open("):
+					// the statement: "if … the revocation store is unreadable,
+					// validation fails closed" — a store that cannot be opened is
+					// unreadable, exactly like one that does not decode
 					eff.StoreNoOpen = true
+					eff.StoreCorrupt = true
 				case strings.Contains(line, "tombstones.db\") = -1"):
 					eff.TombFail = true
 				default:
